@@ -441,4 +441,213 @@ theorem handleEnd_more (text : Bool) (list : List Sym) (body : List Nat) (hb : B
     simp only [St.push, hm1, hn1]
     exact hp
 
+/-- no latch to a non-ASCII mode is planned for the last four characters -/
+def PlanOK (plan : List (Nat × EMode)) : Prop := ∀ e ∈ plan, e.2 ≠ .ascii → e.1 = 0 ∨ e.1 > 4
+
+theorem maybeSwitch_at (s s1 : St) (h : s.maybeSwitch = .ok (true, s1)) : (s.charsLeft, s1.mode) ∈ s.plan := by
+  unfold St.maybeSwitch at h
+  split at h
+  · cases h
+  · rename_i at_ m restPlan hp
+    simp only [] at h
+    split at h
+    · cases h
+    · by_cases hc : s.charsLeft > 0 ∧ s.charsLeft = at_
+      · rw [if_pos hc] at h
+        simp only [] at h
+        by_cases hne : m ≠ s.mode
+        · rw [if_pos hne] at h
+          simp only [Except.ok.injEq, Prod.mk.injEq, true_and] at h
+          subst h
+          rw [hp, hc.2]
+          simp
+        · rw [if_neg hne] at h
+          simp at h
+      · rw [if_neg hc] at h
+        simp at h
+
+/-- after a planned switch the pending latch is consistent, and none is pending near the end -/
+theorem switched_ok (s s3 : St) (hnm : s.newMode = none) (hok : PlanOK s.plan) (h : s.maybeSwitch = .ok (true, s3)) :
+    Pending s3 ∧ (s3.charsLeft ≤ 4 → s3.newMode = none) ∧ PlanOK s3.plan := by
+  obtain ⟨m1, m2, m3, m4, m5, m6⟩ := maybeSwitch_spec s s3 true h
+  obtain ⟨t1, t2, t3, t4⟩ := m6 rfl
+  have hat := maybeSwitch_at s s3 h
+  have hcl3 : s3.charsLeft = s.charsLeft := by simp [St.charsLeft, m1.1, m2]
+  have hclpos : 0 < s.charsLeft := by
+    have := of_decide_eq_true t2
+    simp only [St.charsLeft]; omega
+  rw [hnm] at t4
+  refine ⟨?_, ?_, fun e he => hok e (m4 e he)⟩
+  · unfold Pending
+    cases hl : s3.mode.latch with
+    | none =>
+      left
+      rw [hl] at t4
+      refine ⟨?_, t4⟩
+      cases hm : s3.mode <;> simp [hm, EMode.latch] at hl
+      rfl
+    | some l =>
+      right
+      rw [hl] at t4
+      exact ⟨l, rfl, t4⟩
+  · intro h4
+    cases hl : s3.mode.latch with
+    | none => rw [hl] at t4; exact t4
+    | some l =>
+      exfalso
+      have hne : s3.mode ≠ .ascii := by
+        intro hm; rw [hm] at hl; simp [EMode.latch] at hl
+      rcases hok _ hat hne with h0 | h0
+      · simp only [] at h0; omega
+      · simp only [] at h0; omega
+
+theorem c40Loop_gen (text : Bool) (list : List Sym) (body : List Nat) (hb : ByteList body) (p0 : Nat) (c0 : List Nat) :
+    ∀ (n f : Nat) (s : St) (buf : List Nat) (lastCh m : Nat) (s' : St), body.length - s.pos = n → n < f →
+      Inv text list body p0 c0 s buf lastCh m → PlanOK s.plan →
+      c40Loop text f s buf lastCh = .ok s' → End text list body p0 c0 s' := by
+  intro n
+  induction n with
+  | zero =>
+    intro f s buf lastCh m s' hn hf inv _ h
+    cases f with
+    | zero => omega
+    | succ f =>
+      unfold c40Loop at h
+      have hmore : s.hasMore = false := by
+        simp only [St.hasMore, inv.input]
+        have := inv.le
+        simp; omega
+      have hnone : s.eat = none := by
+        simp only [St.eat]
+        rw [List.getElem?_eq_none (by rw [inv.input]; have := inv.le; omega)]
+      rw [hnone] at h
+      exact handleEnd_atEnd text list body hb p0 c0 s s' buf lastCh m inv hmore h
+  | succ n ih =>
+    intro f s buf lastCh m s' hn hf inv hplan h
+    cases f with
+    | zero => omega
+    | succ f =>
+      unfold c40Loop at h
+      have hlt : s.pos < body.length := by omega
+      have he : s.eat = some (body[s.pos], { s with pos := s.pos + 1 }) := by
+        simp only [St.eat]
+        rw [List.getElem?_eq_getElem (by rw [inv.input]; exact hlt)]
+        simp [inv.input]
+      rw [he] at h
+      simp only [] at h
+      have hchlt : body[s.pos] < 256 := hb _ (List.getElem_mem hlt)
+      have normal : (match toVals text buf body[s.pos] with
+          | .error e => .error e
+          | .ok buf1 =>
+            let (s2, buf2) := flushTriples 3 { s with pos := s.pos + 1 } buf1
+            match s2.maybeSwitch with
+            | .error e => .error e
+            | .ok (true, s3) => c40HandleEnd s3 body[s.pos] buf2
+            | .ok (false, s3) => c40Loop text f s3 buf2 body[s.pos]) = Except.ok s' → End text list body p0 c0 s' := by
+        intro h
+        rw [toVals_eq text buf body[s.pos] hchlt] at h
+        by_cases hcap : (buf ++ c40Vals text body[s.pos]).length > 6
+        · rw [if_pos hcap] at h
+          cases h
+        · rw [if_neg hcap] at h
+          simp only [] at h
+          have hWlt := Wb_lt text body hb p0 (s.pos + 1)
+          have hWs : Wb text body p0 (s.pos + 1) = Wb text body p0 s.pos ++ c40Vals text body[s.pos] :=
+            Wb_succ text body p0 s.pos inv.base hlt
+          have hWsplit : Wb text body p0 s.pos = (Wb text body p0 s.pos).take (3 * m) ++ buf := by
+            rw [inv.bufEq, List.take_append_drop]
+          have hW' : Wb text body p0 (s.pos + 1) = (Wb text body p0 s.pos).take (3 * m) ++ (buf ++ c40Vals text body[s.pos]) := by
+            rw [hWs]
+            conv => lhs; rw [hWsplit]
+            rw [List.append_assoc]
+          have hVlen : ((Wb text body p0 s.pos).take (3 * m)).length = 3 * m := by
+            rw [List.length_take]; have := inv.m3; omega
+          have hb1lt : ∀ v ∈ buf ++ c40Vals text body[s.pos], v < 40 := by
+            intro v hv
+            exact hWlt v (by rw [hW']; exact List.mem_append_right _ hv)
+          obtain ⟨k, k1, k2, k3⟩ := flush_spec 3 { s with pos := s.pos + 1 } (buf ++ c40Vals text body[s.pos])
+            (by omega) hb1lt
+          rw [k3] at h
+          simp only [] at h
+          have inv' : Inv text list body p0 c0
+              { { s with pos := s.pos + 1 } with cw := s.cw ++ packTriples ((buf ++ c40Vals text body[s.pos]).take (3 * k)) }
+              ((buf ++ c40Vals text body[s.pos]).drop (3 * k)) body[s.pos] (m + k) := by
+            refine ⟨inv.input, inv.list, inv.mode, inv.newMode, by simp only []; have := inv.base; omega,
+              by simp only []; omega, ?_, ?_, ?_, ?_, ?_⟩
+            · simp only []
+              rw [hW', List.length_append, hVlen]
+              omega
+            · simp only []
+              rw [hW']
+              have : 3 * (m + k) = ((Wb text body p0 s.pos).take (3 * m)).length + 3 * k := by rw [hVlen]; omega
+              rw [this, drop_len_add]
+            · rw [List.length_drop]; omega
+            · simp only []
+              rw [inv.cw, hW']
+              have : 3 * (m + k) = ((Wb text body p0 s.pos).take (3 * m)).length + 3 * k := by rw [hVlen]; omega
+              rw [this, take_len_add, packTriples_append m _ _ hVlen]
+              simp [List.append_assoc]
+            · intro _
+              simp [List.getD, List.getElem?_eq_getElem hlt]
+          generalize hs2 : ({ { s with pos := s.pos + 1 } with
+              cw := s.cw ++ packTriples ((buf ++ c40Vals text body[s.pos]).take (3 * k)) } : St) = s2 at h inv'
+          have hplan2 : PlanOK s2.plan := by rw [← hs2]; exact hplan
+          cases hm : s2.maybeSwitch with
+          | error e => rw [hm] at h; cases h
+          | ok r =>
+            obtain ⟨bsw, s3⟩ := r
+            rw [hm] at h
+            obtain ⟨m1, m2, m3, m4, m5, m6⟩ := maybeSwitch_spec s2 s3 bsw hm
+            cases bsw with
+            | true =>
+              simp only [] at h
+              obtain ⟨hP, hL, _⟩ := switched_ok s2 s3 inv'.newMode hplan2 hm
+              obtain ⟨_, t2, _, _⟩ := m6 rfl
+              have hmore3 : s3.hasMore = true := by simpa [St.hasMore, m1.1, m2] using t2
+              exact handleEnd_more text list body hb p0 c0 s2 s3 s' _ body[s.pos] (m + k) inv' m1.1 m2 m3 m1.2 hmore3
+                (fun _ => hP) (fun h2 => hL (by omega)) h
+            | false =>
+              simp only [] at h
+              obtain ⟨f1, f2⟩ := m5 rfl
+              have inv3 : Inv text list body p0 c0 s3 ((buf ++ c40Vals text body[s.pos]).drop (3 * k)) body[s.pos] (m + k) :=
+                ⟨m1.1.trans inv'.input, m1.2.trans inv'.list, f1.trans inv'.mode, f2.trans inv'.newMode,
+                  by rw [m2]; exact inv'.base, by rw [m2]; exact inv'.le, by rw [m2]; exact inv'.m3,
+                  by rw [m2]; exact inv'.bufEq, inv'.short, by rw [m2, m3]; exact inv'.cw, by rw [m2]; exact inv'.last⟩
+              exact ih f s3 _ _ (m + k) s' (by rw [m2, ← hs2]; simp only []; omega) (by omega) inv3
+                (fun e he => hplan2 e (m4 e he)) h
+      have hrest1 : ({ s with pos := s.pos + 1 } : St).rest = body.drop (s.pos + 1) := by simp [St.rest, inv.input]
+      split at h
+      · rename_i d hr
+        rw [hrest1] at hr
+        by_cases hc : (buf.isEmpty && isDigit body[s.pos] && isDigit d) = true
+        · -- empty buffer and only two digits remain
+          rw [if_pos hc] at h
+          simp only [Bool.and_eq_true] at hc
+          obtain ⟨⟨hbe, hd1⟩, hd2⟩ := hc
+          have hb0 : buf = [] := by simpa using hbe
+          subst hb0
+          have hbk : ({ s with pos := s.pos + 1 } : St).backup 1 = .ok s := by
+            unfold St.backup
+            rw [if_pos (by simp)]
+            simp
+          rw [hbk] at h
+          simp only [] at h
+          have hlen2 : body.length = s.pos + 2 := by
+            have := congrArg List.length hr
+            simp only [List.length_drop, List.length_singleton] at this
+            omega
+          have hcl : s.charsLeft = 2 := by simp [St.charsLeft, inv.input]; omega
+          have hmore : s.hasMore = true := by simp [St.hasMore, inv.input, hlt]
+          exact handleEnd_more text list body hb p0 c0 s s s' [] lastCh m inv rfl rfl rfl rfl hmore
+            (fun hn2 => absurd ⟨hcl, by
+              have : s.rest = [body[s.pos], d] := by
+                simp only [St.rest, inv.input]
+                rw [List.drop_eq_getElem_cons hlt, hr]
+              rw [this]
+              simp [twoDigitsComing, hd1, hd2]⟩ hn2) (fun _ => inv.newMode) h
+        · rw [if_neg hc] at h
+          exact normal h
+      · simp only [Bool.and_false, Bool.false_eq_true, ↓reduceIte] at h
+        exact normal h
+
 end DM.Lemmas.C40Gen
